@@ -115,6 +115,11 @@ def scores(rng, min_pos=0, min_neg=0, maxn=40, kinds=None, big=False):
                 dt = np.uint16
             allv = rng.permutation(max(250, npos + nneg))[: npos + nneg].astype(dt)
             pos, neg = allv[:npos], allv[npos:]
+        if rng.random() < 0.35 and len(pos) and len(neg) and pos.dtype.itemsize < 8:  # saturated scores: the dtype limits occur, possibly in both classes (uint64 limits are not exact floats)
+            lim = np.iinfo(pos.dtype)
+            for arr in (pos, neg):
+                if rng.random() < 0.7:
+                    arr[int(rng.integers(0, len(arr)))] = lim.max if rng.random() < 0.5 else lim.min
     elif kind == "float16":
         pos, neg = rng.normal(0.5, 1, npos).astype(np.float16), rng.normal(-0.5, 1, nneg).astype(np.float16)
     elif kind == "huge":
@@ -139,6 +144,10 @@ def scores(rng, min_pos=0, min_neg=0, maxn=40, kinds=None, big=False):
         pos, neg = np.round(rng.normal(mp, w, npos), 1), np.round(rng.normal(mn, w, nneg), 1)
     elif kind == "int8wide":
         pos, neg = rng.integers(-128, 128, npos).astype(np.int8), rng.integers(-128, 128, nneg).astype(np.int8)
+        if rng.random() < 0.35 and len(pos) and len(neg):  # saturated scores in both classes
+            for arr in (pos, neg):
+                if rng.random() < 0.7:
+                    arr[int(rng.integers(0, len(arr)))] = 127 if rng.random() < 0.5 else -128
     elif kind == "mixed_f32_f64":
         pos, neg = rng.normal(0.5, 1, npos), rng.normal(-0.5, 1, nneg)
         if rng.random() < 0.5:
